@@ -572,8 +572,7 @@ class MarkdownNormalizer(Renderer):
         self._suppress_item_break = False
         # As the first thing in a `*` bullet item the usual spelling would read `* * * *`, which is
         # itself a rule and no longer an item: there the rule is spelled with dashes.
-        markers = self._prefix.replace(">", "").replace(" ", "")
-        rule = "- - -" if markers and set(markers) == {"*"} else "* * *"
+        rule = "- - -" if self._prefix.rstrip().endswith("*") else "* * *"
         result = f"{self._prefix}{rule}\n"
         self._prefix = self._second_prefix
         return result
